@@ -126,16 +126,16 @@ CHECKS["C16"] = {
     "technique": 'Lean 4 proof (inversion of the Except pipeline, rational sums, list filtering) + differential correspondence + exact-Fraction oracles on CLI output',
 }
 CHECKS["C17"] = {
-    "text": 'The inheritance pmf (hypergeometric gametes with double reduction, per-gamete error mixture with the multinomial frequency prior, sum over gamete pairs) sums to one over all unordered progeny genotypes and over all gametes for every ploidy, gamete-size pair (unbalanced, clonal, unknown parent), lambda, error and frequency vector; with zero error it is positive exactly when trio_valid / duo_valid accept.',
+    "text": "The model of trio_log_pmf (constraint vectors min(dosage, parental copies) widened for double reduction, the four valid_p/valid_q branches, the literal set_initial_dosage / increment_dosage enumeration, the closed-form both-invalid term) is proved equal to the inheritance distribution: sum over all gamete pairs of (1-e)[(1-lambda) hypergeometric + lambda double-reduction] + e multinomial; it sums to one over all unordered progeny genotypes (gametes likewise) for every ploidy, gamete-size pair (unbalanced, clonal, unknown parent), lambda, error and frequency vector; with zero error it is positive exactly when trio_valid / duo_valid accept. The gamete enumerator is proved sound, strictly lex-decreasing, predecessor-exact and complete for every constraint.",
     "design_ref": "DESIGN.md section 4, C17",
-    "note": _NOTE + "Theorems are about the specification trioPmf; the model of trio_log_pmf's own evaluation (four branches, literal increment_dosage enumerator) is compared with it in exact rationals on every case; enumerator soundness and strict decrease proved, completeness kernel-checked for small constraints.",
-    "technique": 'Lean 4 proofs (multivariate Vandermonde via generic convolution over compositions, regrouping over nodup count vectors) + differential correspondence on enumerated genotype spaces + sum / zero-iff-invalid oracles',
+    "note": _NOTE + "All theorems are about the code-structure model (trioCode_eq_spec, trioCode_sum_one, trioCode_positive_iff_trioValid); hypotheses = the code's own conventions (unknown parent passed with error 1, errors <= 1, lambda >= 0 and only at tau = 2). Not proved: equality of evaluation on allele-count vs first-occurrence slot vectors (tested), duo iff only for one orientation.",
+    "technique": "Lean 4 proofs (multivariate Vandermonde via convolution over compositions, lex-predecessor / tightness argument + mixed-radix rank for enumerator completeness, support = constraint, multinomial convolution, pair-sum reindexing) + differential correspondence on enumerated genotype spaces at 1e-9 + sum / zero-iff-invalid oracles",
 }
 CHECKS["C18"] = {
-    "text": 'Gibbs update = exact full conditional of the joint pedigree posterior for every gamete-size pair (incl. unbalanced, clonal, unknown parents, selfing); single-allele MH and the parental allele swap satisfy detailed balance w.r.t. J x prod mult!; the joint factorises over the Markov blanket of an individual / a parental pair.',
+    "text": "Gibbs update = exact full conditional of the joint pedigree posterior J = prod lik_i x trioPmf_i for every gamete-size pair (per-gamete identity P(g-e_x)P(x|rest) = (g_x/tau)P(g), weights 2 tau/(tau_p+tau_q)); single-allele MH and the parental allele swap satisfy detailed balance w.r.t. J x prod mult!; J factorises over the Markov blanket of an individual / a parental pair; the joint of the code model is literally the C17 inheritance pmf (joint_code_eq_spec).",
     "design_ref": "DESIGN.md section 4, C18",
-    "note": _NOTE + 'The joint is built from the model of trio_log_pmf; the former equal-weights code is refuted by a machine-checked counter-example (tau=(1,2)); oracles with signatures guard the F5 / F6 / F11 repairs; swap with p = q only tested.',
-    "technique": 'Lean 4 proofs (MH.base_step_db / factProd_swap instances, termwise scaling of the allele-level pmf, product splitting over the blanket) + differential correspondence of probability vectors / prob_accept + exact-conditional and detailed-balance oracles',
+    "note": _NOTE + "The former equal-weights code is refuted by a machine-checked counter-example (tau=(1,2)); oracles C18/gibbs/unbalanced-tau, C18/gibbs/nan-assert, C18/swap/read-mask guard the F6 / F11 / F5 repairs; swap with p = q and the MH vector-entry form only tested.",
+    "technique": "Lean 4 proofs (MH.base_step_db / factProd_swap instances, termwise scaling of the allele-level pmf, product splitting over the blanket) + differential correspondence of probability vectors / prob_accept + exact-conditional and detailed-balance oracles",
 }
 CHECKS["C19"] = {
     "text": "Lean theorems over the model of find_snvs.bam_region_depths / write_vcf_block: the configured read filters are translated into the pileup's flag mask and MAPQ threshold so that the engine's read filter is the configured one plus 'not secondary, not an orphan mate' (enginePasses_engineCfgOf); on regions whose fetched records have no secondary record, no orphan mate, base qualities >= 13 and distinct read names the depths are exactly the base calls among the reads passing the configured filters (depths_eq_spec_partial) and each option changes them by exactly the reads it governs (filter_option_effect, monotone); machine-checked witnesses outside that region (4 open causes) and regression statements for the 4 repaired causes; an allele is listed iff it meets ind-maf / ind-mad / min-ind, maf (mean over samples with reads) and mad; emitted iff >= 2 kept; REF first, REFMASKED iff REF failed; ALT by non-increasing mean frequency. Tied to bam_region_depths, write_vcf_block and find-snvs stdout by differential runs; every deviation of the real depths from the property is attributed to its cause by a per-feature stream.",
